@@ -497,6 +497,33 @@ GROUPS["bvf_fmt"] = dict(name="bvf_fmt", features="use vstd::string::*;", prelud
     items=lambda ctx: BVF_BASE + [("decl", "decl.BitIterator"), ("stub", "cast.from", {"A": "{I}", "B": "u8"}), ("stub", "cast.to", {"A": "{I}", "B": "u8"})] + stub(BVF_CORE) + stub(["iter.new", "iter.next", "bvf.iter"])
         + verify(["bvf.fmt_binary", "bvf.fmt_lower_hex", "bvf.fmt_upper_hex", "bvf.fmt_octal"]))
 GROUPS["bvf_iterfwd"] = G("bvf_iterfwd", BVF_PRELUDE + ["iter.rs", "into_iter.rs"], BVF_BASE + [("decl", "decl.BitIterator")] + stub(BVF_CORE) + stub(["iter.new"]) + verify(["bvf.into_iter_ref", "bvf.iter"]))
+def fmt_dec_prelude(ctx):
+    i = ctx["I"]
+    p = WORD_PRELUDE + ["conv_std.rs"] + VALUE_PRELUDE + ["value_div.rs", "bvf.rs", "bvf_val.rs", "bvf_div.rs"]
+    for j in ("u8", "u32"):
+        if j != i:
+            p += [("word.rs", {"I": j, "X": "_" + j}), ("word_lz_vstd.rs", {"I": j, "X": "_" + j})]
+    p += [("int_cast.rs", {"J": "u8", "Y": "" if i == "u8" else "_u8"}), "fmt.rs", "fmt_dec.rs"]
+    return p
+def fmt_dec_items(ctx):
+    i = ctx["I"]
+    y8 = {"J": "u8", "Y": "" if i == "u8" else "_u8"}
+    y32 = {"J": "u32", "Y": "" if i == "u32" else "_u32"}
+    it = BVF_BASE + stub(BVF_CORE) + stub(["bvf.is_zero"])
+    it += [("stub", "int.bvf_try_from", y8), ("stub", "int.try_from_bvf", y32), ("stub", "bvf.div_rem_bvf", {"J": "{I}", "XJ": ""})]
+    return it + verify(["bvf.fmt_display"])
+GROUPS["bvf_fmt_dec"] = dict(name="bvf_fmt_dec", features="use vstd::string::*;", prelude=fmt_dec_prelude, items=fmt_dec_items)
+def fmt_dec_d_prelude(ctx):
+    p = BVD_VAL_PRELUDE + ["value_div.rs", "bvd_div.rs"]
+    for j in ("u8", "u32"):
+        p += [("word.rs", {"I": j, "X": "_" + j}), ("word_lz_vstd.rs", {"I": j, "X": "_" + j})]
+    return p + ["fmt.rs", "fmt_dec.rs"]
+GROUPS["bvd_fmt_dec"] = dict(name="bvd_fmt_dec", features="#![feature(allocator_api)]\nuse vstd::string::*;", prelude=fmt_dec_d_prelude,
+    items=lambda ctx: BVD_BASE + stub(BVD_CORE) + stub(["bvd.is_zero", "bvd.clone", "bvd.div_rem_bvd"])
+        + [("stub", "int.bvd_from", {"J": "u8", "Y": "_u8"}), ("stub", "int.try_from_bvd", {"J": "u32", "Y": "_u32"}), ("decl", "int.try_from_bvd_glue", {"J": "u32", "Y": "_u32"})]
+        + verify(["bvd.fmt_display"]))
+GROUPS["bv_fmt_dec"] = G("bv_fmt_dec", BV_VAL_PRELUDE + ["fmt.rs", "fmt_dec.rs"], BV_BASE + stub(["bvf.fmt_display", "bvd.fmt_display"]) + verify(["bv.fmt_display"]))
+GROUPS["bv_fmt_dec"]["features"] = "#![feature(allocator_api)]\nuse vstd::string::*;"
 FMT3 = ["fmt_binary", "fmt_lower_hex", "fmt_upper_hex", "fmt_octal"]
 GROUPS["bvd_fmt"] = G("bvd_fmt", BVD_PRELUDE + ["iter.rs", "fmt.rs"], BVD_BASE + [("decl", "decl.BitIterator"), ("stub", "cast.from", {"A": "u64", "B": "u8"}), ("stub", "cast.to", {"A": "u64", "B": "u8"})] + stub(BVD_CORE)
     + stub(["iter.new", "iter.next", "bvd.iter"]) + verify(["bvd." + x for x in FMT3]))
@@ -894,7 +921,8 @@ PROPS["C15"] = {"quick": parse_jobs(WQ), "thorough": parse_jobs(W4)}
 
 def fmt_jobs(ws):
     return ([("bvf_fmt", iter_bvf(i)) for i in ws] + [("bvf_iterfwd", iter_bvf(i)) for i in ws]
-            + [("bvd_fmt", dict(U64, **ITER_BVD)), ("bvd_iterfwd", dict(U64, **ITER_BVD)), ("bv_fmt", U64)])
+            + [("bvd_fmt", dict(U64, **ITER_BVD)), ("bvd_iterfwd", dict(U64, **ITER_BVD)), ("bv_fmt", U64)]
+            + [("bvf_fmt_dec", {"I": i}) for i in ws] + [("bvd_fmt_dec", U64), ("bv_fmt_dec", U64)])
 PROPS["C14"] = {"quick": fmt_jobs(WQ), "thorough": fmt_jobs(W4)}
 
 MANIFEST_TEXT = {}
@@ -1008,11 +1036,18 @@ MANIFEST_TEXT["C13"] = dict(
           "R28 the bounds `R: std::io::Read` / `W: std::io::Write` -> mirror traits VRead / VWrite whose contracts are ASSUMED (T1-io: read_exact fills the buffer with the next bytes and consumes exactly those, or fails at end of input, no other I/O failure; "
           "write_all appends exactly the slice or fails), `reader.read_exact(&mut buf[..])` -> `reader.read_exact_vec(&mut buf)`, `std::io::Error::new(kind, e)` -> a stub that records the kind; R29 `&buf[..]` -> `buf.as_slice()`. "
           "Not under contract (second engine only): other instantiations of B (Vec<u8>, arrays), u128/usize storage words. A-size: |bytes| <= usize::MAX/8 (Bvf), 8*|bytes| + 64 <= usize::MAX/2 (Bvd, Bv). " + TRUST_NOTE))
-dyn_only("C14", "Display/Binary/Octal/LowerHex/UpperHex under 21 format specifications against Rust's formatting of the u128 value.",
-         "CONTRACT-BASED VERIFICATION DOES NOT REACH THIS PROPERTY with the installed tools: the digit strings are built with String/Vec<char>/iterator-adapter chains (`s.iter().rev().collect::<String>()`), "
-         "Display runs div_rem in a loop with char::from_digit, and the observable result goes through core::fmt::Formatter::pad_integral, for which vstd has neither a model nor a hook; a contract would have to ASSUME the "
-         "whole formatting back end (T4) and the String API. This check is therefore NOT a proof and not a bounded-exhaustive stand-in either (CBMC cannot take core::fmt at useful bounds): it is the executable contract run on "
-         "seeded random inputs, kept because it finds real defects (the seeded changes C14-a/b) and labelled exploration. What IS proved and feeds formatting: div_rem (C02), significant_bits (C16), the conversions to integers (C11).")
+MANIFEST_TEXT["C14"] = dict(
+    text=("Proof, relative to ONE stated assumption about core::fmt (T4 below): the real bodies of Binary, Octal, LowerHex, UpperHex and Display for Bvf<I,N> (I = u8..u64, symbolic N, N = 0 included), Bvd and Bv, extracted from /repo on every run, "
+          "are verified by Verus to call Formatter::pad_integral exactly once with (is_nonnegative = true, the prefix Rust uses for that radix: \"0b\", \"0o\", \"0x\", \"0x\", \"\", the MINIMAL digit string of the vector's value in that radix): "
+          "binary/octal/hex digit k from the most significant end is the value of bits group k of the well-formed storage, no leading zero digit, \"0\" for the value zero and for empty vectors (is_bin_repr / is_oct_repr / is_hex_repr, lower and upper case); "
+          "Display is verified at VALUE level: the digits are dec_digits(val(self)) most significant first (repeated division by ten on top of the verified div_rem, integer conversions and is_zero), \"0\" for zero, the loop terminates, "
+          "and `expect`/`unwrap` are unreachable (this obligation found D12: Display for Bvf<I,0> panicked; repaired in /repo). The digit string depends only on the bits below len (value), not on length, implementation or word type. "
+          "T4 (assumed, not checkable here): core::fmt::num formats every unsigned integer by calling the same Formatter::pad_integral with (true, the same prefix, the minimal digits of the integer), and pad_integral's output is a function of the formatter's "
+          "flags and these three arguments only; under T4 the verified call trace IS `exactly the string Rust produces for an unsigned integer of the same value, under every combination of #, +, 0, width, fill and alignment`." + DYN_NOTE),
+    note=("Formatter is a mirror type (R32: `fmt::Formatter` / `std::fmt::Formatter` resolve to spec/prelude/fmt.rs, whose pad_integral records its arguments in a ghost call trace); the trait impls are emitted as inherent methods fmt_binary, fmt_octal, ... (R19). "
+          "Assumed std contracts (T1): String::with_capacity (empty), char::from_digit(d < 10, 10), `v.iter().rev().collect::<String>()` (R7 stub: the reversed sequence); vstd's own specifications are used for String::push/is_empty, Vec::push/truncate/len, str views and string literals. "
+          "R33 `(quotient, remainder) = E;` -> `let verif_qr = E; quotient = verif_qr.0; remainder = verif_qr.1;` (destructuring assignment). A-size for Bvd/heap Bv: len + 64 <= usize::MAX/2; Bvf: capacity <= u32::MAX bits (inherited from TryFrom<u8>). "
+          "What the second engine adds on every run: the end-to-end strings under 21 format specifications against Rust's formatting of the u128 value (this is where T4 is exercised). " + TRUST_NOTE))
 MANIFEST_TEXT["C15"] = dict(
     text=("Proof: the real bodies of from_binary and from_hex of Bvf<I,N> (I = u8..u64, symbolic N), Bvd and Bv, extracted from /repo on every run, are verified by Verus over the string as a sequence of chars (vstd's string view): "
           "the accept set is exactly the strings of '0'/'1' (resp. ASCII hex digits of either case, `char::to_digit(16)` assumed: T1), the empty string included; on success the length is |s| (resp. 4|s|), the result is well formed and "
